@@ -299,6 +299,24 @@ def check(prop, tier, seed, opts):
             if any(f["sig"] == sig for f in fs):
                 confirmed = rp
                 break
+            # the minimised case passes in a fresh interpreter: minimisation may have been misled by state the worker process had
+            # accumulated (see worker.py); try the case as generated, on its own, in a fresh interpreter
+            try:
+                with open(rp["path"]) as fh:
+                    full = json.load(fh)
+            except Exception:
+                full = {}
+            if full.get("original_case") is not None:
+                opath = rp["path"].replace(".json", ".asgenerated.json")
+                full2 = dict(full, case=full["original_case"], original_case=None, shrink_tests=0, minimised_case_ops=full.get("original_case_ops"),
+                             note="minimised case did not reproduce in a fresh interpreter (process-history dependent failure); this is the case as generated")
+                with open(opath, "w") as fh:
+                    json.dump(full2, fh, indent=1)
+                meta2, res2 = replay_file(opath, workdir)
+                fs2 = (res2.get("summary") or {}).get("failures", []) if not res2.get("harness_error") else []
+                if any(f["sig"] == sig for f in fs2):
+                    confirmed = dict(rp, path=opath)
+                    break
         if confirmed:
             violations.append(confirmed)
         else:
